@@ -89,7 +89,7 @@ class CFormatter(Formatter):
 
     @override(Formatter)
     def format_str_value(self, value: str) -> str:
-        return '"{0}"'.format(value)
+        return '"{0}"'.format(self.escape_str_value(value))
 
     @override(Formatter)
     def format_int_value(self, value: int) -> str:
